@@ -881,3 +881,92 @@ Proof.
   - destruct (subset_requested_first _ _ _ H) as [_ Hr]. rewrite Hr; [exact Hn|].
     apply nth_error_Some. congruence.
 Qed.
+
+(* ------------------------------------------------------------------------------------------- *)
+(* termination of the worklist without fuel: one iteration of the loop, as a relation on the
+   states (glyph_ids, i), strictly decreases
+     (ids still to visit) + (component ids of the table not yet in glyph_ids)
+   from EVERY state, not only the reachable ones *)
+From Coq Require Import Wellfounded.
+
+Definition notin (ids : list Z) (c : Z) : bool := negb (existsb (Z.eqb c) ids).
+
+Lemma notin_true ids c : notin ids c = true <-> ~ In c ids.
+Proof.
+  unfold notin. rewrite negb_true_iff. split.
+  - intros H Hin. assert (existsb (Z.eqb c) ids = true); [|congruence].
+    apply existsb_exists. exists c. split; [exact Hin|apply Z.eqb_refl].
+  - intros H. destruct (existsb (Z.eqb c) ids) eqn:E; [|reflexivity].
+    apply existsb_exists in E. destruct E as (y & Hy & Hc). apply Z.eqb_eq in Hc. subst. contradiction.
+Qed.
+
+Lemma notin_app1 ids x c : notin (ids ++ [x]) c = notin ids c && negb (c =? x).
+Proof.
+  unfold notin. rewrite existsb_app. cbn [existsb]. rewrite orb_false_r. now rewrite negb_orb.
+Qed.
+
+Definition missing (tbl : table) (ids : list Z) : nat :=
+  length (filter (notin ids) (nodup Z.eq_dec (all_comps tbl))).
+
+Lemma filter_drop_one (U : list Z) : forall ids x,
+  NoDup U -> In x U -> ~ In x ids ->
+  (length (filter (notin (ids ++ [x])) U) + 1 = length (filter (notin ids) U))%nat.
+Proof.
+  induction U as [|u U IH]; intros ids x Hd Hin Hx; [destruct Hin|].
+  inversion Hd as [|? ? Hu Hd']; subst. cbn [filter]. rewrite notin_app1.
+  destruct (Z.eq_dec u x) as [->|Hne].
+  - rewrite Z.eqb_refl. cbn [negb]. rewrite andb_false_r.
+    assert (Hn : notin ids x = true) by now apply notin_true. rewrite Hn. cbn [length].
+    rewrite (filter_ext_in (notin (ids ++ [x])) (notin ids)); [lia|].
+    intros c Hc. rewrite notin_app1. assert (c <> x) by (intros ->; contradiction).
+    apply Z.eqb_neq in H. rewrite H. cbn [negb]. apply andb_true_r.
+  - destruct Hin as [Hin|Hin]; [contradiction|].
+    assert (E : (u =? x) = false) by now apply Z.eqb_neq. rewrite E. cbn [negb]. rewrite andb_true_r.
+    specialize (IH ids x Hd' Hin Hx). destruct (notin ids u); cbn [length]; lia.
+Qed.
+
+Lemma missing_app tbl extra : forall ids,
+  NoDup extra -> (forall x, In x extra -> ~ In x ids /\ In x (all_comps tbl)) ->
+  (missing tbl (ids ++ extra) + length extra = missing tbl ids)%nat.
+Proof.
+  induction extra as [|x e IH]; intros ids Hd Hex.
+  - rewrite app_nil_r. cbn [length]. lia.
+  - inversion Hd as [|? ? Hx Hd']; subst.
+    change (ids ++ x :: e) with (ids ++ [x] ++ e). rewrite app_assoc.
+    assert (H1 : (missing tbl (ids ++ [x]) + 1 = missing tbl ids)%nat).
+    { unfold missing. apply filter_drop_one.
+      - apply NoDup_nodup.
+      - apply nodup_In. apply Hex. now left.
+      - apply Hex. now left. }
+    assert (H2 : (missing tbl ((ids ++ [x]) ++ e) + length e = missing tbl (ids ++ [x]))%nat).
+    { apply IH; [exact Hd'|]. intros y Hy. split; [|apply Hex; now right]. intros Hin.
+      apply in_app_or in Hin. destruct Hin as [Hin|[<-|[]]]; [|contradiction].
+      apply (proj1 (Hex y (or_intror Hy))). exact Hin. }
+    cbn [length]. lia.
+Qed.
+
+Definition loop_state := (list Z * nat)%type.
+Definition loop_next (tbl : table) (s' s : loop_state) : Prop :=
+  exists g r, nth_error (fst s) (snd s) = Some g /\
+    subset_step tbl (fst s) g = Ok (fst s', r) /\ snd s' = S (snd s).
+Definition loop_measure (tbl : table) (s : loop_state) : nat :=
+  (length (fst s) - snd s + missing tbl (fst s))%nat.
+
+Lemma loop_next_decreases tbl s' s : loop_next tbl s' s -> (loop_measure tbl s' < loop_measure tbl s)%nat.
+Proof.
+  destruct s as [ids i], s' as [ids' i']. unfold loop_next, loop_measure. cbn [fst snd].
+  intros (g & r & Hg & Hs & ->).
+  assert (Hlt : (i < length ids)%nat) by (apply nth_error_Some; congruence).
+  destruct (subset_step_spec _ _ _ _ _ Hs) as (extra & -> & Hnd & Hex & _).
+  assert (Hm : (missing tbl (ids ++ extra) + length extra = missing tbl ids)%nat).
+  { apply missing_app; [exact Hnd|]. intros x Hx. destruct (Hex x Hx) as [Hn (comps & rest & Hrec & Hc)].
+    split; [exact Hn|]. eapply comps_in_all; eauto. }
+  rewrite app_length. lia.
+Qed.
+
+Lemma loop_terminates tbl : well_founded (loop_next tbl).
+Proof.
+  apply (wf_incl _ _ (ltof _ (loop_measure tbl))).
+  - intros s' s H. now apply loop_next_decreases.
+  - apply well_founded_ltof.
+Qed.
